@@ -14,41 +14,66 @@ durations and outcomes).  Webhook deliveries and batch callbacks are delayed, dr
 concurrently with each other and with the periodic update loop; GitHub and batch calls have seeded latency and
 fail transiently.  A heal phase (no faults, no new events) ends each run.
 
-Oracle (monitor at every merge PUT reaching SimGitHub; a violation is raised only if GitHub accepts the merge --
-a refused PUT is not a merge -- refused PUTs that would have violated are counted as a probe).  It is evaluated on
-what SimGitHub most recently SERVED TO CI, not on the world's newer truth:
-  * the head sha in the PUT is the head most recently listed to CI for that PR; none of that listing's labels is a
+Oracle (monitor at every merge PUT reaching SimGitHub, the only way CI merges).  A violation is raised only if GitHub
+accepts the PUT -- a refused PUT is not a merge; refused PUTs on bad served state are a probe.  Every condition is
+judged on what SimGitHub most recently SERVED TO CI (CI cannot know the world's newer truth):
+  * the sha in the PUT is the head most recently listed to CI for that PR, and none of that listing's labels is a
     do-not-merge label (the oracle's own constant {'WIP', 'stacked PR'});
   * the review decision most recently served is APPROVED;
-  * the checks most recently served for that PR were checks of that head commit, and every *required* one other
-    than CI's own status context is SUCCESS/NEUTRAL (non-required checks: probe only; CI's own context is an
-    output of CI, its input is the next item; ">= 1 check" is not asserted: the property text does not say it);
+  * the checks most recently served for that PR were those of that head commit and every *required* one other than
+    CI's own status context is SUCCESS/NEUTRAL (failing non-required checks: probe only; CI's own context is an output
+    of CI whose input is the next item; ">= 1 check" is not asserted because the property text does not say it).  If the
+    review decision / checks CI was last served belong to an *older* head than the one it merges (it was served the new
+    head by a later listing and never the review/checks for it) that is signature unrefreshed_new_head/...;
   * CI's `pr.batch` is a Batch whose server-side record is a test batch (test=1) with source_sha == that head and
     target_sha == the target-branch sha most recently served to CI, complete with state success;
   * history: CI was not told of a successful merge into that branch since it last looked at the branch ref
     (<= 1 merge per target-branch observation).  A merge that was applied while CI received an error for it
     (fault net.github_ack_lost) does not arm this check (CI cannot know); it is only counted as a probe.
+On top of that, a label / review / check / batch problem is reported only if the WORLD agrees on that aspect at the
+instant of the merge (the PR really carries a do-not-merge label / is not approved / has a non-successful required
+check on the merged head / has no successful test batch of that head against the branch's current commit): then the
+property text is violated literally and staleness does not excuse it.  Served-bad but world-good merges are counted
+as probes lucky_merge:*; served-good but world-bad merges (legal races) as merged_on_stale_but_served_state.
 
 Choices made: "dismiss stale reviews" is a per-run knob (push resets an approval to REVIEW_REQUIRED or keeps it);
 SimGitHub enforces no branch protection (it refuses only a stale `sha`, a merge conflict, or a closed PR), so the
 gating under test is CI's own; status / check_run events have no handler in ci.ci, so check changes reach CI only
 through the next refresh.
 
-Sensitivity (scratch copies under /tmp with HAIL_REPO_ROOT, quick tier; all caught unless noted):
-  M1 is_mergeable ignores DO_NOT_MERGE labels                  -> C30/merged/do_not_merge_label
-  M2 review decision REVIEW_REQUIRED treated as approved      -> C30/merged/not_approved
-  M3 is_up_to_date() always True                                -> C30/merged/batch_for_other_target
-  M4 update_from_gh_json keeps batch/build_state on a new head  -> C30/merged/batch_for_other_source
-  M5 try_to_merge keeps going after a successful merge and does not reset the branch sha
-                                                                -> C30/merged/second_merge_without_reobserving_target
-  M6 is_mergeable ignores failing required checks (only CI's own context is looked at)
-                                                                -> C30/merged/required_check_not_success
-  M7 the build_state assertion in is_mergeable removed (python -O) -> C30/merged/batch_not_success
-  M8 _update_batch accepts any complete batch as 'success'     -> C30/merged/batch_not_success
-  M9 DO_NOT_MERGE = {STACKED_PR} (WIP dropped from the constant) -> C30/merged/do_not_merge_label
-See the final report of the authoring session for the run counts.
+Sensitivity: ci/ci/github.py mutated in a scratch tree (/tmp/hailmut: copy of ci/, symlinks to the other roots,
+HAIL_REPO_ROOT), 1600 quick-tier runs each; number of violating runs and first signature:
+  M1  is_mergeable ignores DO_NOT_MERGE labels                    396  C30/merged/do_not_merge_label/ci_view_agrees
+  M2  review decision REVIEW_REQUIRED mapped to 'approved'        476  C30/merged/not_approved/ci_view_differs
+  M3  is_up_to_date() == (batch is not None)                      109  C30/merged/batch_for_other_target
+  M4  update_from_gh_json keeps batch/build_state on a new head     5  C30/merged/batch_for_other_source
+  M5  try_to_merge neither returns nor resets branch sha after a successful merge
+                                                                   20  C30/merged/second_merge_without_reobserving_target
+  M6  is_mergeable looks only at CI's own status context          182  C30/merged/required_check_not_success/ci_view_agrees
+  M7  the build_state assertion in is_mergeable removed (python -O) 148 C30/merged/batch_not_success (+ no_test_batch)
+  M8  _update_batch: every complete batch counts as success       159  C30/merged/batch_not_success
+  M9  DO_NOT_MERGE = {STACKED_PR} (WIP dropped)                   185  C30/merged/do_not_merge_label/ci_view_agrees
+  M10 is_mergeable does not look at review_state                  358  C30/merged/not_approved/ci_view_agrees
+  M11 _update_batch query uses pr= instead of source_sha=          88  C30/merged/batch_for_other_source
+  M12 CHANGES_REQUESTED mapped to 'approved'                      152  C30/merged/not_approved/ci_view_differs
+All twelve were caught.  (M7 shows that the assertion in is_mergeable is load-bearing: after _start_build the PR
+holds a fresh running batch with the right target_sha while last_known_github_status still says SUCCESS.)
+
+Findings on the unchanged tree (genuine, see the replays; one root cause): PR.update_from_gh_json resets batch /
+build_state when the head changes but keeps review_state and last_known_github_status; they are only replaced when the
+GraphQL refresh that follows completes.  If that refresh aborts -- a transient GitHub error, or deterministically
+github_status(None) -> ValueError while a *required CheckRun is in progress* (GraphQL conclusion null) -- _update exits
+with github_changed already cleared, and the next notify_batch_changed-driven _update (which does not refresh GitHub)
+builds the new head and merges it with the approval / check results of the old head, or with check results that the
+last response CI was served contradicted.  Signatures: C30/merged/required_check_not_success/ci_view_differs (needs no
+injected fault), C30/merged/not_approved/ci_view_differs, C30/merged/unrefreshed_new_head/not_approved,
+C30/merged/unrefreshed_new_head/required_check_not_success.
+Other observations (not asserted): an AssertionError in is_mergeable of a higher-priority PR aborts try_to_merge for
+the whole branch (probe end_green_unmerged); with a merge whose acknowledgement is lost CI can merge a second PR on
+the same target observation (probe merge_after_unacked_merge; exempt because CI was told the first merge failed).
 """
 import asyncio
+import json
 import random
 import re
 import secrets
@@ -344,7 +369,6 @@ class World:
         if self.stopping:
             return
         what = f'batch:{status["id"]}'
-        import json
         body = json.dumps(status).encode()
         for d in self._deliveries(what):
             self.loop.call_later(d, self._deliver_batch, status, body, what)
@@ -379,13 +403,20 @@ class World:
         self.log.add('world', 'target_moves', base, old, new, why)
 
     def on_batch_created(self, rec):
-        pass
+        if rec['attributes'].get('deploy') == '1':
+            self.ctx.probe('deploy_batch_created')
+        elif rec['attributes'].get('test') == '1':
+            self.ctx.probe('test_batch_created')
 
     # -- the C30 monitor -------------------------------------------------------------------------
     def on_merge_put(self, number, sha, refusal):
+        """every merge PUT that reaches GitHub.  A problem is a pair of facts about one aspect (labels, review, checks,
+        batch): (1) what CI was most recently served / holds does not entitle it to merge, and (2) the world agrees,
+        i.e. the property text is violated by this merge.  (1) without (2) is a lucky merge (probe); (2) without (1)
+        is a legal race (probe)."""
         gh = self.gh
         p = gh.prs.get(number)
-        problems = []
+        problems = []   # (aspect or None, signature suffix, detail)
         sp = gh.served_pr.get(number)
         sc = gh.served_chk.get(number)
         base = p.base if p is not None else None
@@ -396,97 +427,98 @@ class World:
         ci_review_ok = cpr is not None and cpr.review_state == 'approved'
         ci_checks_ok = cpr is not None and all(
             st.value == 'success' for k, st in cpr.last_known_github_status.items() if k != self.ci_context)
+        ci_holds = sorted((k, v.value) for k, v in cpr.last_known_github_status.items()) if cpr is not None else None
 
         def how(ci_ok):
             return 'ci_view_differs' if ci_ok else 'ci_view_agrees'
         if sp is None or not sp['listed']:
-            problems.append(('pr_not_in_last_listing', f'PR {number} was not in the listing last served to CI'))
+            problems.append((None, 'pr_not_in_last_listing', f'PR {number} was not in the listing last served to CI'))
         else:
             if sp['head'] != sha:
-                problems.append(('sha_not_last_served_head', f'PUT sha {sha}, last served head {sp["head"]}'))
-            dnm = sorted(set(sp['labels']) & DNM)
-            if dnm:
-                problems.append((f'do_not_merge_label/{how(ci_labels_ok)}',
+                problems.append((None, 'sha_not_last_served_head', f'PUT sha {sha}, last served head {sp["head"]}'))
+            if set(sp['labels']) & DNM:
+                problems.append(('labels', f'do_not_merge_label/{how(ci_labels_ok)}',
                                  f'labels last served to CI: {list(sp["labels"])}'))
         if sc is None:
-            problems.append(('review_never_served', 'CI was never served a review decision for this PR'))
+            problems.append((None, 'review_never_served', 'CI was never served a review decision for this PR'))
+        elif sc['sha'] == sha and not sc['mixed']:
+            # CI has looked at the review decision / checks while `sha` was the head: judge what it was served
+            if sc['review'] != 'APPROVED':
+                problems.append(('review', f'not_approved/{how(ci_review_ok)}',
+                                 f'review decision last served to CI: {sc["review"]} (CI holds '
+                                 f'{cpr.review_state if cpr is not None else None})'))
+            bad = [(k, v[1]) for k, v in sorted(sc['nodes'].items())
+                   if v[2] and k != self.ci_context and v[1] not in OK_STATES]
+            if bad:
+                problems.append(('checks', f'required_check_not_success/{how(ci_checks_ok)}',
+                                 f'required checks last served to CI for {sha}: {bad}; CI holds {ci_holds}'))
+            if any((not v[2]) and v[1] not in OK_STATES and v[1] not in (None, 'PENDING', 'EXPECTED')
+                   for v in sc['nodes'].values()):
+                self.ctx.probe('put_with_failing_nonrequired_check')
         else:
-            if sc['sha'] == sha and not sc['mixed']:
-                # CI has looked at the review decision / checks while `sha` was the head: judge what it was served
-                if sc['review'] != 'APPROVED':
-                    problems.append((f'not_approved/{how(ci_review_ok)}',
-                                     f'review decision last served to CI: {sc["review"]}'))
-                bad = [(k, v[1]) for k, v in sorted(sc['nodes'].items())
-                       if v[2] and k != self.ci_context and v[1] not in OK_STATES]
-                if bad:
-                    problems.append((f'required_check_not_success/{how(ci_checks_ok)}',
-                                     f'required checks last served to CI for {sha}: {bad}; CI holds '
-                                     f'{sorted((k, v.value) for k, v in cpr.last_known_github_status.items())}'
-                                     if cpr is not None else f'required checks last served for {sha}: {bad}'))
-                if any((not v[2]) and v[1] not in OK_STATES and v[1] not in (None, 'PENDING', 'EXPECTED')
-                       for v in sc['nodes'].values()):
-                    self.ctx.probe('put_with_failing_nonrequired_check')
-            elif p is not None:
-                # CI was told that the head is now `sha` (listing) but has never been served the review decision or
-                # the checks while `sha` was the head: what it holds describes the older commit sc['sha'].  Flag only
-                # if the property text is violated in the world as well (otherwise CI was merely lucky: probe).
-                lucky = True
-                if p.review != 'APPROVED':
-                    lucky = False
-                    problems.append(('unrefreshed_new_head/not_approved',
-                                     f'CI holds review decision {sc["review"]} served when the head was {sc["sha"]}; it '
-                                     f'was later served the new head {sha} but never the review decision for it; the '
-                                     f'pull request is {p.review} now'))
-                badw = [(c.name, c.state) for c in gh.contexts.get(sha, {}).values()
-                        if c.required and c.name != self.ci_context and c.state not in OK_STATES]
-                if badw:
-                    lucky = False
-                    problems.append(('unrefreshed_new_head/required_check_not_success',
-                                     f'CI holds the checks of the older commit {sc["sha"]}; it was later served the new '
-                                     f'head {sha} but never its checks; required checks on {sha} now: {badw}'))
-                if lucky:
-                    self.ctx.probe('merged_without_refreshing_new_head_lucky')
+            # CI was told that the head is now `sha` (listing) but has never been served the review decision or the
+            # checks while `sha` was the head: what it holds describes the older commit sc['sha'].
+            problems.append(('review', 'unrefreshed_new_head/not_approved',
+                             f'CI holds review decision {sc["review"]} served when the head was {sc["sha"]}; it was '
+                             f'later served the new head {sha} but never the review decision for it'))
+            problems.append(('checks', 'unrefreshed_new_head/required_check_not_success',
+                             f'CI holds the checks of the older commit {sc["sha"]} ({ci_holds}); it was later served '
+                             f'the new head {sha} but never its checks'))
         b = cpr.batch if cpr is not None else None
         if b is None or not isinstance(b, self.Batch) or not b.is_created:
-            problems.append(('no_test_batch', f'pr.batch is {type(b).__name__}'))
+            problems.append(('batch', 'no_test_batch', f'pr.batch is {type(b).__name__}'))
         else:
             rec = self.batch.batches.get(b.id)
             if rec is None:
-                problems.append(('no_test_batch', f'pr.batch {b.id} is unknown to the batch service'))
+                problems.append(('batch', 'no_test_batch', f'pr.batch {b.id} is unknown to the batch service'))
             else:
                 a = rec['attributes']
                 served_t = gh.served_branch.get(base)
                 if a.get('test') != '1':
-                    problems.append(('batch_not_a_test_batch', f'batch {b.id} attributes {a}'))
+                    problems.append(('batch', 'batch_not_a_test_batch', f'batch {b.id} attributes {a}'))
                 if a.get('source_sha') != sha:
-                    problems.append(('batch_for_other_source', f'batch {b.id} tested source {a.get("source_sha")}, '
-                                                               f'merged head is {sha}'))
+                    problems.append(('batch', 'batch_for_other_source',
+                                     f'batch {b.id} tested source {a.get("source_sha")}, merged head is {sha}'))
                 if a.get('target_sha') != served_t:
-                    problems.append(('batch_for_other_target', f'batch {b.id} ran against target {a.get("target_sha")}, '
-                                                               f'target last served to CI is {served_t}'))
+                    problems.append(('batch', 'batch_for_other_target',
+                                     f'batch {b.id} ran against target {a.get("target_sha")}, target last served to CI '
+                                     f'is {served_t}'))
                 if not (rec['complete'] and rec['state'] == 'success'):
-                    problems.append(('batch_not_success', f'batch {b.id} is {rec["state"]} complete={rec["complete"]}'))
+                    problems.append(('batch', 'batch_not_success',
+                                     f'batch {b.id} is {rec["state"]} complete={rec["complete"]}'))
         if base is not None and gh.await_reobserve.get(base):
-            problems.append(('second_merge_without_reobserving_target',
+            problems.append((None, 'second_merge_without_reobserving_target',
                              f'CI was told a merge into {base} succeeded and has not looked at the branch since'))
         if refusal is not None:
             if problems:
-                self.ctx.probe('refused_put_would_violate')
-                self.log.add('oracle', 'refused_put_would_violate', number, problems[0][0])
+                self.ctx.probe('refused_put_on_bad_served_state')
+                self.log.add('oracle', 'refused_put_on_bad_served_state', number, problems[0][1])
             return
-        # accepted: this is a merge
+        # accepted: this is a merge.  World truth per aspect at this instant:
+        world_bad = {
+            'labels': sorted(set(p.labels) & DNM),
+            'review': p.review if p.review != 'APPROVED' else None,
+            'checks': [(c.name, c.state) for c in gh.contexts.get(sha, {}).values()
+                       if c.required and c.name != self.ci_context and c.state not in OK_STATES],
+            'batch': None if self.has_green_batch(p) else
+            f'no successful test batch of {sha} against {gh.branches[base]} exists',
+        }
         if gh.unacked_merge.get(base):
             self.ctx.probe('merge_after_unacked_merge')
         if any(q is not p and self.world_green(q) for q in gh.open_prs(base)):
             self.ctx.probe('two_prs_green_same_time')
-        if not self.world_green(p):
+        if any(world_bad.values()) and not problems:
             self.ctx.probe('merged_on_stale_but_served_state')
-        if problems:
-            world = 'world_also_bad' if not self.world_green(p) else 'world_ok'
-            self.log.add('oracle', 'violation', number, sha, tuple(x[0] for x in problems), world)
-            raise self.violate(f'C30/merged/{problems[0][0]}',
-                               f'CI merged PR {number} at {sha} into {base}: ' + '; '.join(x[1] for x in problems)
-                               + f' [{world}]')
+        real = []
+        for aspect, sig, detail in problems:
+            if aspect is None or world_bad[aspect]:
+                real.append((sig, detail + (f'; in the world: {aspect} = {world_bad[aspect]}' if aspect else '')))
+            else:
+                self.ctx.probe('lucky_merge:' + sig.split('/')[0])
+        if real:
+            self.log.add('oracle', 'violation', number, sha, tuple(x[0] for x in real))
+            raise self.violate(f'C30/merged/{real[0][0]}',
+                               f'CI merged PR {number} at {sha} into {base}: ' + ' | '.join(x[1] for x in real))
 
     # -- actors ----------------------------------------------------------------------------------
     def _new_head(self, p, s):
